@@ -16,6 +16,7 @@
 """Model Modifier class that produce the final quantized TFlite model."""
 
 import copy
+import os
 
 import numpy as np
 
@@ -70,7 +71,17 @@ class ModelModifier:
         instructions, quantized_model
     )
     constant_buffer_size = self._process_constant_map(quantized_model)
-    if constant_buffer_size > 2**31 - 2**20:
+    large_model_threshold = 2**31 - 2**20
+    if os.environ.get('AI_EDGE_QUANTIZER_VERIF') == '1':
+      # Verification hook: lets checks drive small models through the
+      # large-model serialization path.
+      large_model_threshold = int(
+          os.environ.get(
+              'AI_EDGE_QUANTIZER_VERIF_LARGE_MODEL_THRESHOLD',
+              large_model_threshold,
+          )
+      )
+    if constant_buffer_size > large_model_threshold:
       return self._serialize_large_model(quantized_model)
     else:
       return self._serialize_small_model(quantized_model)
